@@ -214,6 +214,7 @@ def GTraitInstance.Value (t : GTraitInstance) : Go.M (String) := do
     return t.variableName
   return t.value
 
+def validateParsableTraits_err1 : String := "Enum: %s cannot have parsableTrait %s because trait value %s is found in %s and %s. parsableByTrait values must be unique within the enum."
 /-- `func validateParsableTraits(enumType string, traits TraitDescs) error` -/
 def validateParsableTraits (enumType : String) (traits : List GTraitDesc) : Go.M (List GTraitDesc × Option String) := do
   let mut traits := traits
@@ -228,7 +229,7 @@ def validateParsableTraits (enumType : String) (traits : List GTraitDesc) : Go.M
         let mut ok : Bool := Option.isSome p4
         if ok then
           if (parseTo != «instance».OwningValue.Name) then
-            return (traits, (some "Enum: %s cannot have parsableTrait %s because trait value %s is found in %s and %s. parsableByTrait values must be unique within the enum."))
+            return (traits, (some validateParsableTraits_err1))
           trait := { trait with Traits := (← Go.listSet trait.Traits i { (← Go.listGet trait.Traits i) with repeatsParseKey := true }) }
           traits ← Go.listSet traits k3 trait
         parsableTraitResults := Go.kvSet parsableTraitResults «instance».value «instance».OwningValue.Name
